@@ -1519,8 +1519,9 @@ var ioMethodAdvances = [...]struct {
 }{
 	t.IDPeekU8 - t.IDPeekU8: {one, false},
 
-	t.IDPeekU16BE - t.IDPeekU8: {two, false},
-	t.IDPeekU16LE - t.IDPeekU8: {two, false},
+	t.IDPeekU8AsU16 - t.IDPeekU8: {one, false},
+	t.IDPeekU16BE - t.IDPeekU8:   {two, false},
+	t.IDPeekU16LE - t.IDPeekU8:   {two, false},
 
 	t.IDPeekU8AsU32 - t.IDPeekU8:    {one, false},
 	t.IDPeekU16BEAsU32 - t.IDPeekU8: {two, false},
